@@ -67,7 +67,11 @@ func (s *c11CLIState) writeDir() error {
 			body += fmt.Sprintf("CREATE TABLE t%s_%d (x int);\n", f.V, i)
 		}
 		if f.Ck {
-			body = "-- atlas:checkpoint\n\n" + body
+			lead := ""
+			if len(f.V) > 0 && (f.V[0]-'0')%2 == 1 {
+				lead = "-- atlas:txmode none\n"
+			}
+			body = lead + "-- atlas:checkpoint\n\n" + body
 		}
 		fs = append(fs, dirFile{f.V + "_f.sql", body})
 	}
